@@ -555,9 +555,11 @@ def random_inputs(model_bytes, rng, sg_info=None, n=1, scale=None):
     return out
 
 
-def gen_tied(rng):
+def gen_tied(rng, shared_bias=0.0):
     """models with tied constants: one buffer referenced by several tensors (within / across subgraphs)
-    and one constant tensor feeding 2..3 operators."""
+    and one constant tensor feeding 2..3 operators. With probability `shared_bias` the FULLY_CONNECTED ops of a subgraph
+    also share ONE bias tensor while reading inputs of different ranges (the bias scale input_scale*weight_scale then differs
+    per consumer: the quantizer must refuse or get both right)."""
     nsg = rng.choice([1, 1, 2])
     g = G()
     info = {"tags": {"tied"}, "subgraphs": []}
@@ -580,6 +582,19 @@ def gen_tied(rng):
         k = rng.randint(2, 3)
         cur = x
         outs = []
+        sb = rng.random() < shared_bias
+        b_shared = gr.const([o], kind="normal", base="b") if sb else None
+        if sb:
+            info["tags"].add("shared_bias")
+        xs = [x]
+        for j in range(1, k):
+            if sb:   # a differently scaled view of the input for the later consumers
+                xj = gr.new_act(list(g.sg.tensors[x].shape))
+                g.op(rng.choice([BO.LOGISTIC, BO.TANH]), [x], [xj])
+                kinds.append("UNARY")
+                xs.append(xj)
+            else:
+                xs.append(x)
         for j in range(k):
             if mode == "same_tensor" or (mode == "mixed" and j < 2):
                 w = w0
@@ -588,9 +603,9 @@ def gen_tied(rng):
                 w = g.tensor(gr.name("w"), [o, f], buffer=shared_buf) if j > 0 else w0
                 if j > 0:
                     info["tags"].add("tied_within_subgraph")
-            b = gr.const([o], base="b") if rng.random() < 0.6 else -1
+            b = b_shared if sb else (gr.const([o], base="b") if rng.random() < 0.6 else -1)
             y = gr.new_act([g.sg.tensors[x].shape[0], o])
-            g.op(BO.FULLY_CONNECTED, [x, w, b], [y], OPT.FullyConnectedOptions, s.FullyConnectedOptionsT())
+            g.op(BO.FULLY_CONNECTED, [xs[j], w, b], [y], OPT.FullyConnectedOptions, s.FullyConnectedOptionsT())
             kinds.append("FULLY_CONNECTED")
             gr.out(y, [g.sg.tensors[x].shape[0], o])
             outs.append(y)
